@@ -38,9 +38,11 @@
 //! outputs, divided by K). The history is replayed on `p3_challenger::DuplexChallenger` with
 //! the committed observed values:
 //!     violation  ⇔  the real prover+verifier ACCEPT the trace
-//!                   ∧ ( some committed sampled challenge ≠ the native one        [challenge!=native]
-//!                     ∨ a committed observed base element is not in the base field
-//!                       (the native transcript of it does not exist)           [observed-not-base-field] )
+//!                   ∧ some committed sampled challenge ≠ the native one        [challenge!=native]
+//! A trace that commits a non-base-field value for an observed *base element* states something
+//! the native challenger cannot even be asked (the documented precondition of `observe`): it
+//! is outside the property, counted (`out_of_domain`) and never reported. (That such
+//! statements are accepted is recorded under C04 / C12.)
 //! A deviation that yields a different but consistent statement, or leaves the statement
 //! untouched, is not a violation whatever the verifier says, so by default only deviations
 //! whose committed statement is INCONSISTENT ("candidates") are sent to the prover
@@ -387,6 +389,9 @@ struct Judgement {
     /// None = the committed statement is consistent with the native transcript
     clause: Option<&'static str>,
     detail: String,
+    /// a committed observed "base element" is not in the base field: the native transcript of
+    /// that statement does not exist, the property says nothing about it
+    out_of_domain: bool,
     /// the committed publics differ from the honest ones
     observed_changed: bool,
     sampled_changed: bool,
@@ -493,12 +498,13 @@ fn judge<B: Cfg>(
             }
         }
     }
+    let out_of_domain = non_base.is_some();
     let (clause, detail) = match (non_base, mismatch) {
-        (Some(d), _) => (Some("observed-not-base-field"), d),
+        (Some(d), _) => (None, d),
         (None, Some(d)) => (Some("challenge!=native"), d),
         (None, None) => (None, String::new()),
     };
-    Ok(Judgement { clause, detail, observed_changed, sampled_changed })
+    Ok(Judgement { clause, detail, out_of_domain, observed_changed, sampled_changed })
 }
 
 // =======================================================================================
@@ -539,6 +545,8 @@ enum Status {
     Inapplicable(String),
     /// committed statement consistent with the native transcript: verdict irrelevant, not proved
     ConsistentNotProved,
+    /// an observed base element is committed as a non-base-field value: outside the property
+    OutOfDomain,
     Proved(Verdict),
 }
 
@@ -568,6 +576,7 @@ impl Eval {
             Status::Noop => "noop(trace unchanged)".into(),
             Status::Inapplicable(_) => "inapplicable".into(),
             Status::ConsistentNotProved => "consistent(not proved)".into(),
+            Status::OutOfDomain => "out-of-domain(observed value not in the base field, not proved)".into(),
             Status::Proved(v) => format!("{c} -> {}", v.short()),
         }
     }
@@ -669,12 +678,23 @@ impl<B: Cfg> Fx<B> {
             if ctl { "+coeffctl" } else { "" }
         );
         let name = format!("{cfg_name}[{}]", show(hist));
-        let fx = Fixture::<B>::new(
-            &name,
-            circuit,
-            Inputs { public: r.publics, private: vec![], siblings: vec![] },
-            TablePacking::default(),
-        )?;
+        // The public outputs were computed from the NATIVE transcript. If the circuit challenger
+        // disagrees with the native one (a C05-type defect) the runner reports a conflict on a
+        // public output; the honest prover would then simply commit the values the circuit
+        // computes. Re-choose the public outputs that way, so that the fixture is the honest
+        // proof of the circuit and the H evaluation reports "accepted, challenge != native".
+        let mut inputs = Inputs { public: r.publics, private: vec![], siblings: vec![] };
+        if !quiet_catch(|| vpe3::run_real(&circuit, &inputs)).is_ok_and(|r| r.is_ok()) {
+            let dev = Deviation { adapt_publics: true, ..Deviation::none() };
+            if let Ok(Ok(ex)) = quiet_catch(|| vpe3::execute(&circuit, &inputs, &dev)) {
+                for (p, role) in r.roles.iter().enumerate() {
+                    if *role == Role::Out {
+                        inputs.public[p] = ex.inputs.public[p];
+                    }
+                }
+            }
+        }
+        let fx = Fixture::<B>::new(&name, circuit, inputs, TablePacking::default())?;
         let me = Fx {
             family,
             cfg_name: cfg_name.to_string(),
@@ -902,6 +922,10 @@ impl<B: Cfg> DynFx for Fx<B> {
             e.status = Status::Noop;
             return e;
         }
+        if e.j.as_ref().is_some_and(|j| j.out_of_domain) {
+            e.status = Status::OutOfDomain;
+            return e;
+        }
         if !e.candidate() && !self.prove_all {
             e.status = Status::ConsistentNotProved;
             return e;
@@ -1112,7 +1136,8 @@ fn main() {
     let prove_all = ctx.opt("prove") == Some("all");
     F1_ALL_LIMBS.store(!ctx.quick(), Ordering::Relaxed);
     // soft cap: leave room for the proofs in flight and the evidence (quick: 45 s * 0.8 = 36 s)
-    let over = || ctx.used() >= 0.8;
+    let cap = if ctx.quick() { 0.8 } else { 0.92 };
+    let over = || ctx.used() >= cap;
 
     // states of the automaton per configuration
     let mut per_cfg: Vec<Value> = vec![];
@@ -1146,10 +1171,12 @@ fn main() {
     let timed_out = AtomicBool::new(false);
     let (mut evaluations, mut candidates, mut proved, mut accepted_unbound) = (0u64, 0u64, 0u64, 0u64);
     let (mut changed_consistent, mut noops, mut inapplicable, mut crosscheck_bad) = (0u64, 0u64, 0u64, 0u64);
+    let mut out_of_domain = 0u64;
     let mut histories_done = 0usize;
     let mut histories_partial = 0usize;
     let mut fixtures_json: Vec<Value> = vec![];
     let mut skipped_cfg: BTreeMap<String, String> = BTreeMap::new();
+    let mut skipped_count: BTreeMap<String, u64> = BTreeMap::new();
     let mut distinct_statements: HashSet<String> = HashSet::new();
 
     // level by level (shortest histories first, all configurations interleaved): a cut by the
@@ -1193,6 +1220,7 @@ fn main() {
                     let name = selected[ci].name().to_string();
                     let tolerated = !matches!(name.as_str(), "kb-d4+rc" | "bb-d4+rc" | "kb-d5-base+rc+ctl");
                     if tolerated {
+                        *skipped_count.entry(name.clone()).or_insert(0) += 1;
                         skipped_cfg.entry(name).or_insert_with(|| format!("[{}]: {e}", show(&h)));
                     } else {
                         machinery_error(&format!("fixture {name} [{}]: {e}", show(&h)));
@@ -1259,6 +1287,7 @@ fn main() {
                 Status::Noop => noops += 1,
                 Status::Inapplicable(_) => inapplicable += 1,
                 Status::ConsistentNotProved => changed_consistent += 1,
+                Status::OutOfDomain => out_of_domain += 1,
                 Status::Proved(_) => {
                     if e.class != "H" {
                         proved += 1;
@@ -1332,6 +1361,13 @@ fn main() {
     }
 
     let exhaustive = !timed_out.load(Ordering::Relaxed) && skipped_cfg.is_empty();
+    for (c, first) in &skipped_cfg {
+        let first: String = first.chars().take(400).collect();
+        println!(
+            "  note: {c}: {} histories skipped, the HONEST circuit does not run/prove (outside C06; first: {first})",
+            skipped_count.get(c).copied().unwrap_or(0)
+        );
+    }
     println!(
         "C06: {} configurations, {} automaton states (depth <= {depth}), {} histories fully enumerated, {} evaluations, {} unbound-challenge candidates proved, {} accepted (violations before known-finding matching), cross-check failures {}",
         selected.len(), total_states, histories_done, evaluations, candidates, accepted_unbound, crosscheck_bad
@@ -1339,14 +1375,15 @@ fn main() {
     let cov = json!({
         "evaluations": evaluations,
         "distinct_nontrivial": candidates,
-        "rule": "one evaluation = one single deviation (H honest / F2 slot with forward propagation / F4 row-local port deviation with propagation / F3 public slot in all rows without propagation / F1 Public-table cell / P permutation closure deviating on call k limb j with in-table chaining) applied to the honest traces of the circuit the real CircuitChallenger builds for one history; deviations are pairwise distinct by construction (every slot, port, cell, (call, limb) once per delta unit). Non-trivial = the deviation really changes the committed statement into an INCONSISTENT one (a committed sampled challenge differs from the native challenge of the committed observed values, or an observed base element is committed as a non-base-field value) AND the real prover+verifier decided it: a sound transcript must reject exactly these. Deviations that leave the trace unchanged (noop) or yield a consistent statement are counted separately and (unless --opt prove=all) not proved, because their verdict cannot change the oracle's answer",
+        "rule": "one evaluation = one single deviation (H honest / F2 slot with forward propagation / F4 row-local port deviation with propagation / F3 public slot in all rows without propagation / F1 Public-table cell / P permutation closure deviating on call k limb j with in-table chaining) applied to the honest traces of the circuit the real CircuitChallenger builds for one history; deviations are pairwise distinct by construction (every slot, port, cell, (call, limb) once per delta unit). Non-trivial = the deviation really changes the committed statement into an INCONSISTENT one (a committed sampled challenge differs from the native challenge of the committed observed values) AND the real prover+verifier decided it: a sound transcript must reject exactly these. Deviations that leave the trace unchanged (noop) or yield a consistent statement are counted separately and (unless --opt prove=all) not proved, because their verdict cannot change the oracle's answer",
         "samples": *samples.lock().unwrap(),
         "exhaustive": exhaustive,
         "depth_bound": depth,
         "alphabet": ALPHABET.iter().map(|a| a.token()).collect::<Vec<_>>(),
         "alphabet_legend": "op observe(public base element); xp observe_ext(public extension element); s sample; sx sample_ext; b3 sample_bits(3); every history is followed by one more s",
         "configurations": per_cfg,
-        "configurations_skipped_honest_circuit_does_not_prove": skipped_cfg,
+        "histories_skipped_honest_circuit_does_not_prove": skipped_count,
+        "histories_skipped_first_error": skipped_cfg,
         "automaton_states": total_states,
         "automaton_transitions": total_transitions,
         "histories_planned": plan.len(),
@@ -1357,6 +1394,7 @@ fn main() {
         "unbound_candidates_accepted": accepted_unbound,
         "distinct_inconsistent_statements": distinct_statements.len(),
         "changed_but_consistent_statements": changed_consistent,
+        "out_of_domain_statements_observed_value_not_base_field": out_of_domain,
         "noop_deviations_equal_to_honest": noops,
         "inapplicable_deviations": inapplicable,
         "oracle_violation_but_vpe3_predicate_holds": crosscheck_bad,
